@@ -304,6 +304,12 @@ CompRule0(D, c) ==
             THEN [failed |-> TRUE, code |-> c.in.code, enh |-> <<cl, 7, 1>>, temp |-> cl = 4]
             ELSE IF fo THEN [failed |-> FALSE, code |-> 0, enh |-> NotSet, temp |-> FALSE]
             ELSE [failed |-> TRUE, code |-> 451, enh |-> <<4, 7, 1>>, temp |-> TRUE]
+    \* target.remote, no MX of the recipient domain could be used: "No usable MXs", code and
+    \* enhanced code computed by the helper pair from the failure of the last MX tried
+    \* (in.mx: how each MX fails, in preference order)
+    [] c.site = "remote-nomx" ->
+         LET tmp == c.in.mx[Len(c.in.mx)] = "temp" IN
+         [code |-> IF tmp THEN 451 ELSE 550, enh |-> <<IF tmp THEN 4 ELSE 5, 4, 0>>, temp |-> tmp]
     [] c.site = "smtpconn-reply" ->         \* a peer's reply passed on; 552 becomes 452 (RFC 5321 4.5.3.1.10)
          IF c.in.code = 552 THEN [code |-> 452, enh |-> <<4, c.in.enh[2], c.in.enh[3]>>, temp |-> TRUE]
          ELSE [code |-> c.in.code, enh |-> c.in.enh, temp |-> Class(c.in.code) = 4]
@@ -316,9 +322,12 @@ RejectArgs == {<<>>} \cup {<<c>> : c \in {450, 451, 521, 550, 554}}
               \cup {<<450, <<4, 7, 1>>>>, <<550, <<5, 1, 1>>>>}
 \* every class of reply code a milter can put on the wire, and garbage
 MilterCodes == {250, 354, 450, 451, 550, 554, 0, 999}
+\* every ordering of temporary / permanent per-MX failures for 1, 2 and 3 MXs
+MXFailures == UNION {[1..n -> {"temp", "perm"}] : n \in 1..3}
 CompSpace ==
   {[site |-> "dmarc-reject", in |-> [verdict |-> v]] : v \in {"fail", "temperror"}}
   \cup {[site |-> s, in |-> [args |-> a]] : s \in {"pipeline-reject", "failaction-reject"}, a \in RejectArgs}
+  \cup {[site |-> "remote-nomx", in |-> [mx |-> m]] : m \in MXFailures}
   \cup {[site |-> "milter-replycode", in |-> [code |-> c]] : c \in MilterCodes}
   \cup {[site |-> "milter-wire", in |-> [code |-> c, fo |-> f, enh |-> e, stage |-> g]] :
           c \in MilterCodes, f \in BOOLEAN, e \in {"none", "same", "other"}, g \in {"mail", "eob"}}
